@@ -431,7 +431,7 @@ mp::internal::atomic<unsigned> SignalHandler::signal_message_size_;
 mp::internal::atomic<InterruptHandler> SignalHandler::handler_;
 mp::internal::atomic<void*> SignalHandler::data_;
 
-volatile std::sig_atomic_t SignalHandler::stop_ = 1;
+mp::internal::atomic<int> SignalHandler::stop_(1);
 
 #ifdef _WIN32
 // Signal repeater for Windows.
@@ -532,11 +532,12 @@ void SignalHandler::HandleSigInt(int sig) {
     if (result < 0) break;
     count += result;
   } while (count < signal_message_size_);
-  if (stop_>1) {    // AMPL seems to send 2x SIGINT
+  // Test and increment in one atomic step: the handler for SIGINT
+  // can be interrupted by SIGTERM and vice versa.
+  if (stop_.fetch_add(1) > 1) {    // AMPL seems to send 2x SIGINT
     // Use asynchronous-safe function _exit instead of exit!
     _exit(1);
   }
-  ++stop_;
   if (InterruptHandler handler = handler_)
     handler(data_);
   // Restore the handler since it might have been reset before the handler
